@@ -185,6 +185,7 @@ type vWorld struct {
 	writes   []map[string]any
 	lastRes  string
 	panicMsg string
+	fresh    bool
 	crashes  int
 	// script
 	steps []json.RawMessage
@@ -380,6 +381,13 @@ func (w *vWorld) handler(l log.Logger, name string, svc *v1.Service, eps []disco
 			w.exec(raw, a, idx)
 			idx = -1
 		}
+	}
+	// did the handler get the current version of the object (or a stale cache / snapshot copy)?
+	w.fresh = true
+	if cur, ok := w.api[kit.SvcOfKey(name)]; ok {
+		w.fresh = svc != nil && svc.ResourceVersion == cur.ResourceVersion
+	} else {
+		w.fresh = svc == nil
 	}
 	res := w.c.SetBalancer(l, name, svc, eps)
 	w.lastRes = vResName(res)
@@ -599,7 +607,8 @@ func (w *vWorld) observe(idx int, raw json.RawMessage, op, s string, crashed boo
 	}
 	o := map[string]any{"w": w.id, "n": w.nobs, "i": idx + 1, "act": raw, "op": op, "s": s, "res": w.lastRes, "crashed": crashed,
 		"crashes": w.crashes, "q": w.quiescent(), "gate": controllers.VerifGate(w.r), "ctl": w.ctlName, "cfgApi": w.cfgApi,
-		"inPass": w.inPass, "reload": w.reload, "poolEvt": w.poolEvt, "svcQ": kit.SortedKeys(w.svcQ), "panic": w.panicMsg}
+		"inPass": w.inPass, "reload": w.reload, "poolEvt": w.poolEvt, "svcQ": kit.SortedKeys(w.svcQ), "panic": w.panicMsg, "fresh": w.fresh}
+	w.fresh = true
 	w.panicMsg = ""
 	api := map[string]vObsSvc{}
 	for name, svc := range w.api {
